@@ -123,6 +123,8 @@ def dict_key_id(kenc):
         return ("n", float(kenc[1]))
     if t == "z":
         return ("z",)
+    if t == "o":
+        return ("o", kenc[1], kenc[2])
     return ("s", kenc[1])
 
 
@@ -148,7 +150,7 @@ def m_get(e, key):
 #   * a missing exclusion list, a missing signature (and, through verify_play, a missing vars section) is an error
 # Left open by the statement and therefore accepted either way ("either"): an empty request (empty string,
 # trailing comma), a request in non-canonical path syntax that would be valid when empty components are dropped
-# (`hosts//x`, `vars/x`, `/hosts/`), a valid request whose target does not exist, a null signature.
+# (`hosts//x`, `vars/x`, `/hosts/`), a valid request whose target does not exist, blanks around a request or label that would be valid without them.
 
 def parse_request(req):
     comps = [c for c in req.split("/") if c != ""]
@@ -177,18 +179,27 @@ def ref_exclusion(play_e):
         return ("error", "missing_exclusion_list", None)
     if exc[0] != "s":
         return ("reject", "exclusion_list_not_string", None)
-    soft = None
     if sig == Z:
-        soft = "null_signature"
+        # "a missing signature is a verification error": a null signature is no signature; the play must not get
+        # through verify_play, the class of the error is left open (tightened from 'either' in the audit)
+        return ("reject", "null_signature", None)
+    soft = None
     work = json.loads(json.dumps(play_e))          # deep copy of the encoding
     for req in exc[1].split(","):
         comps, canonical = parse_request(req)
         if not comps:
             soft = soft or "empty_request"
             continue
-        if comps[0] not in LABELS:
-            return ("error", "parent_not_dynamic_label", None)
-        if len(comps) > 2:
+        if comps[0] not in LABELS or len(comps) > 2:
+            # the statement is silent about blanks around a request or a label: an implementation that strips them
+            # and then finds a valid request may accept it; anything else is an error
+            loose = [c.strip() for c in req.strip().split("/") if c.strip() != ""]
+            if loose != comps and loose and loose[0] in LABELS and len(loose) <= 2:
+                soft = soft or "blanks_around_labels"
+                _delete(work, loose)
+                continue
+            if comps[0] not in LABELS:
+                return ("error", "parent_not_dynamic_label", None)
             return ("error", "deeper_than_direct_child", None)
         if not canonical:
             soft = soft or "non_canonical_path"
@@ -243,11 +254,11 @@ def _yscalar(e, style):
                 return s                                              # plain scalar -> str
             if all(32 <= ord(c) < 127 for c in s):
                 return "'" + s.replace("'", "''") + "'"               # SingleQuotedScalarString
-        return json.dumps(s, ensure_ascii=True)                        # DoubleQuotedScalarString
+        return json.dumps(s, ensure_ascii=True).replace("\x7f", "\\x7f")      # DoubleQuotedScalarString
     if t == "o" and e[1] == "bytes":
         import base64
         return "!!binary " + base64.b64encode(bytes.fromhex(e[2])).decode()
-    if t == "o" and e[1] == "date":
+    if t == "o" and e[1] in ("date", "datetime"):
         return e[2]
     raise ValueError("no YAML rendering for %r" % (e,))
 
